@@ -36,7 +36,7 @@ def _one(m, pid, repo, work):
                 status = "undecided (%s)" % str(e)[:80]
                 continue
             res = verus.run(asm, os.path.join(dst, "out", u, "unit.rs"), cfg.get("rlimit", 60), threads=2)
-            hit = [f for f in res.failures if pid in f.props]
+            hit = [f for f in res.failures if pid in f.props or any(pid in registry.IMPLIES.get(x, ()) for x in f.props)]
             if hit:
                 status = "killed"
                 by = sorted(set("%s/%s" % (f.fn, f.label) for f in hit))[:4]
